@@ -743,6 +743,8 @@ def deserialize_problem_as_url(
     width = int(m[2])
     height = int(m[3])
     body = m[4]
+    if height <= 0 or width <= 0:
+        raise ValueError("board size must be positive")
 
     if allowed_puzzles is not None:
         if isinstance(allowed_puzzles, list):
